@@ -699,6 +699,64 @@ pub fn run(preset: Preset, thorough: bool, seed: u64, findings: &[Finding], only
         generated += 1;
         cases.push(pc);
     }
+    // screening: many more histories (names recurring at several depths) go through the cheap in-process
+    // well-formedness checker of C04; only those it objects to for an UNLISTED reason are added to the
+    // batch, so that rustc — still the judge — sees them. (A struct-naming slip that needs a 1-in-500
+    // shape would otherwise slip through a few hundred compiled programs.)
+    if only_case_absent {
+        let n_screen: u64 = if thorough { 400_000 } else { 40_000 };
+        let mut added = 0;
+        for k in 0..n_screen {
+            if added >= 12 {
+                break;
+            }
+            let mut r = Rng::derive(seed, "prog-screen", k);
+            let p = Profile {
+                pool: if r.chance(1, 4) { Pool::Adversarial } else { Pool::Plain },
+                max_depth: 5,
+                max_children: 3,
+                n_elem_names: (2, 3),
+                n_attr_names: (1, 2),
+                n_docs: (1, 2),
+                p_text: 3,
+                p_cdata: 0,
+                p_misc: 0,
+                p_ws: 2,
+                data_oriented: true,
+                unique_values: true,
+                adjacent_repeats: preset == Preset::SerdeXmlRs,
+                attrs_disjoint_children: preset == Preset::SerdeXmlRs,
+                calm_text: true,
+                ..Profile::general()
+            };
+            let p = if preset == Preset::SerdeXmlRs { Profile { pool: if p.pool == Pool::Adversarial { Pool::NoNamespace } else { Pool::Plain }, ..p } } else { p };
+            let docs = gen::random_history(&mut r, &p, &format!("s{}", k));
+            if !precondition_ok(preset, &docs) {
+                continue;
+            }
+            rep.count("histories_screened");
+            let hc = HistoryCase::plain(&format!("prog-screen:{}:{}", seed, k), docs);
+            let texts = hc.texts();
+            let tree = match guarded(|| real::run_history(&texts, &[ReaderKind::Str], Cfg::default())) {
+                Ok(Ok(t)) => t,
+                _ => continue,
+            };
+            let qx = match guarded(|| tree.to_serde_struct(&real::opts_qx(false))) {
+                Ok(s) => s,
+                Err(_) => continue,
+            };
+            let m = model::infer(&hc.docs);
+            let complaints = hist::c04_complaints(&qx, &m);
+            if complaints.iter().any(|c| !c04_listed.contains(&c.sig)) {
+                let id = cases.len();
+                if let Some(pc) = make_case(preset, id, hc, None, &mut rep) {
+                    cases.push(pc);
+                    added += 1;
+                    rep.count("screened_histories_sent_to_rustc");
+                }
+            }
+        }
+    }
     rep.add("programs_generated", cases.len() as u64);
 
     let work = crate::report::out_dir().join("work").join(format!("{}-{}", property.to_lowercase(), std::process::id()));
